@@ -66,7 +66,7 @@ pub fn run<C: SimCfg>(plan: &Plan, check_distance: usize, frames: u32, expect_re
             if submitted[p].len() as i32 == u {
                 submitted[p].push(v);
             }
-            if let Err(e) = sess.add_local_input(p, v) {
+            if let Err(e) = sess.add_local_input(p, C::enc(v)) {
                 viol.push(Violation { class: "c16.local_input_rejected".into(), text: format!("SyncTestSession::add_local_input({p}) returned {e:?}"), t_us: t, node: 0, frame: u });
             }
         }
